@@ -163,15 +163,13 @@ Proof.
   - split; [discriminate|]. intros [sg' [tys' [Hs _]]]. discriminate.
 Qed.
 
-(* trajectory fluent, unary (the shape the check exercises): accepted iff the argument's type is a subtype *)
-Lemma trajectory_fluent_unary_lemma dom objs f v r a t :
-  dget (d_funcs dom) f = Some [(v, r)] -> type_of_name dom objs a = Ok t ->
-  (trajectory_fluent dom objs f [a] = Ok tt <-> is_sub_type (d_types dom) t r = true).
-Proof.
-  intros Hf Ht. unfold trajectory_fluent. rewrite Hf. cbn [List.length Nat.eqb negb mapM]. rewrite Ht. cbn [bind].
-  cbn [combine fold_left dset dvalues map snd]. unfold all_subtypes. cbn [combine forallb fst snd].
-  rewrite andb_true_r. destruct (is_sub_type (d_types dom) t r); split; intros H; try reflexivity; discriminate.
-Qed.
+(* trajectory fluents (TrajectoryParser with a problem, after the repair D31): the same positional rule *)
+Lemma trajectory_fluent_lemma dom objs f args :
+  trajectory_fluent dom objs f args = Ok tt <->
+  exists sg tys, dget (d_funcs dom) f = Some sg /\ List.length args = List.length sg /\
+                 mapM (type_of_name dom objs) args = Ok tys /\
+                 forall t r, In (t, r) (combine tys (dvalues sg)) -> is_sub_type (d_types dom) t r = true.
+Proof. exact (problem_fluent_lemma dom objs f args). Qed.
 
 (* ---------- on a domain whose types come from a well-formed section ---------- *)
 From Verif Require Import Spec.Types Proofs.C06_Main.
@@ -218,3 +216,11 @@ Proof.
   - intros [sg [tys [H1 [H2 [H3 H4]]]]]. exists sg, tys. repeat split; try assumption.
     intros t r Hin. apply (closure_lemma gs tr _ Hwf Hp), H4, Hin.
 Qed.
+
+Lemma site_trajectory_fluent_subtype_lemma : forall gs tr (dom : mdomain) objs f args,
+  wf_section gs tr -> parse_types (render gs tr) = Ok (d_types dom) ->
+  (trajectory_fluent dom objs f args = Ok tt <->
+   exists sg tys, dget (d_funcs dom) f = Some sg /\ List.length args = List.length sg /\
+                  mapM (type_of_name dom objs) args = Ok tys /\
+                  forall t r, In (t, r) (combine tys (dvalues sg)) -> subtype (decls gs tr) t r).
+Proof. exact site_fluent_subtype_lemma. Qed.
